@@ -394,6 +394,8 @@ def check_recursion(R, P, u):
         kind = allowed.get(key)
         if kind is None and "scpi::tree::Node::exec" in key and all(x == "scpi::tree::Node::exec" or D._inline(x, x) for x in key):
             kind = "exec"   # exec and helpers that the table analyses in place
+        if kind is None and all(x.startswith("scpi::parser::parameters::Parameters::") for x in key):
+            kind = "params"     # however the pulls of Parameters are organised (mutual recursion, one worker calling itself ...)
         if kind is None:
             R.violation("R01.3", "recursion:%s" % "+".join(sorted(x.split("::")[-1] for x in comp)), "unexpected recursion among %s: no termination argument on file" % sorted(comp))
             continue
@@ -415,14 +417,23 @@ def check_recursion(R, P, u):
                                     bad.append("children %s at %s: exec called on %r" % (kids, stream, a0))
             R.check(not bad and n >= 100, "R01.3", "recursion:exec", "every recursive exec call descends to a child of self.sub (%d recursion events over the branch table): depth bounded by the finite tree" % n, "exec recurses on something that is not a child of the current node: unbounded recursion possible (%s)" % bad[:2], where=b.span)
         else:
-            b = names["scpi::parser::parameters::Parameters::next_optional_token"]
-            ok = True
+            # Every call that stays inside the recursive component is dominated, in its caller, by a call that takes a token
+            # off the stream (Peekable::next / next_if / next_if_eq): the depth is bounded by the number of tokens left.
+            # (edges that follow a consumption are removed; what is left of the component must have no cycle)
             n = 0
-            doms = cfg.dominators(b.mir)
-            for c in b.calls():
-                if c.name.endswith("Parameters::next_token"):
-                    n += 1
-                    consumed = [x for x in b.calls() if x.rname.endswith("Iterator>::next") and "Peekable" in x.rname and x.bi in doms.get(c.bi, ())]
-                    ok = ok and bool(consumed)
-            R.check(ok and n == 1, "R01.3", "recursion:parameters", "next_optional_token recurses (through next_token) only after consuming a token", "Parameters recursion without consuming input: may not terminate", where=b.span)
+            b = None
+            rest = {m: set() for m in key}
+            for member in sorted(key):
+                mb = names[member]
+                doms = cfg.dominators(mb.mir)
+                for c in mb.calls():
+                    tgt = c.rname if c.rname in key else c.name if c.name in key else None
+                    if tgt is not None:
+                        b = b or mb
+                        n += 1
+                        consumed = [x for x in mb.calls() if "Peekable" in x.rname and x.rname.split("::")[-1] in ("next", "next_if", "next_if_eq") and x.bi in doms.get(c.bi, ()) and x.bi != c.bi]
+                        if not consumed:
+                            rest[member].add(tgt)
+            ok = not [c_ for c_ in cfg.sccs(list(rest), lambda v: rest.get(v, ())) if len(c_) > 1 or (c_[0] in rest.get(c_[0], ()))]
+            R.check(ok and n >= 1, "R01.3", "recursion:parameters", "every cycle among the pulls of Parameters takes a token off the stream first (%d call site(s) inside the component %s)" % (n, sorted(x.split("::")[-1] for x in key)), "Parameters recursion without consuming input: may not terminate", where=b.span if b is not None else None)
     R.ok("R01.3", "recursion:census", "%d recursive component(s) in crate scpi, all with a termination argument" % len(comps))
